@@ -183,7 +183,11 @@ func (r *DynamicHostResolver) addressResolved(hostname string, addrs []string, e
 }
 
 func (r *DynamicHostResolver) notifyAddressChanged(hostname string, entry *AddressWithCallback, newAddrs []string, removedAddrs []string) {
-	for _, callback := range entry.callbacks {
+	// ResolveHost appends to entry.callbacks under the lock while this goroutine runs
+	r.Lock()
+	callbacks := append([]IPResolvedCallback{}, entry.callbacks...)
+	r.Unlock()
+	for _, callback := range callbacks {
 		callback(hostname, newAddrs, removedAddrs)
 	}
 
